@@ -30,6 +30,8 @@ func propC06(w *World, r *Report) {
 		}
 	}
 	RunActionProgress(w, r)
+	RunInputPosLen(w, r, newBoundsRun(w), gt)
+	r.Floor("inputposlen", 6)
 	RunMergeTails(w, r, gt)
 	r.Floor("mergetails", 2)
 	RunMemoKey(w, r, gt)
